@@ -245,6 +245,9 @@ func (g *Registrar) Check(method string, r Route) (Verdict, string) {
 	if soft {
 		return Either, "matchall-leaf-vs-subtree"
 	}
+	if r.OddCapture() {
+		return Either, "odd-capture"
+	}
 	return MustAccept, ""
 }
 
